@@ -117,4 +117,13 @@ CHECKS['C19'] = dict(
          'SIGTERM-ignoring sleeper} with timeout = 1: exactly returns < 10 s, HARD_ERROR, child pid gone, sandbox removed.',
     note='Scheduling is reduced to the one schedule-dependent quantity: whether the child outlives the timeout (virtual clock). Kernel-level facts are sampled by the real '
          'slice only. Shell places use `exec` so that the sleeper is the process exactly starts.')
+CHECKS['C10'] = dict(
+    level='exploration',
+    technique='denotation-first bounded-exhaustive enumeration of program form x argument list x stdin x symbol chain x place x exit code through the real CLI; the virtual child logs what it is given; real-process slice with a compiled probe',
+    text='Every single item and selected pairs of an 18-item argument family (plus text-until-end-of-line and line continuation) under 5 program forms at the action to check '
+         'and as an instruction; every place (11) x form x 7 stdin arrangements; verbatim shell lines at 6 places; exit codes (quick 5 boundary values, thorough 0..255) with the '
+         'FAIL / HARD_ERROR / -ignore-exit-code policy at 9 places and, at the action to check, with transformation-carrying program symbols; the 3 other actors; cwd after cd at '
+         'every place. argv, stdin and cwd logged at the seam must equal the denoted ones and exit-code / stdout / stderr assertions on the scripted output must pass. '
+         '~80 cases are re-run with a real process (compiled probe dumping argv/stdin/cwd) and must agree with the virtual log.',
+    note='Environment sets belong to C11; output of real processes is only compared for argv/stdin/cwd.')
 NOT_APPLICABLE = {}
